@@ -63,6 +63,13 @@ func w2History(r *prng.R, matcher int, special int) []w2call {
 			}
 		}
 	default:
+		if special >= 1000 && special < 2000 {
+			// a little more than one chunk of data that is very nearly incompressible: sweeps
+			// the decision between a compressed and an uncompressed chunk
+			h = append(h, w2call{Op: 'W', Fam: fmt.Sprintf("thinrep:%d", 3*(special-1000)), N: 65600 + 100*(special%7), Seed: r.U64()}, w2call{Op: 'F'})
+			wr("text", 2000)
+			break
+		}
 		if special >= 64000 {
 			// one maximally expensive operation at a given offset near the end of the first
 			// noise chunk (see gen "chunkedge"): the margin the writer keeps below the 64 KiB
@@ -103,7 +110,7 @@ func checkC08(c *ev.Ctx) {
 	c.SetRule("call histories over {Write(p), Flush, Close} for lzma.Writer2 (1-14 calls before Close plus 1-3 calls after it; payload families and lengths 0..2 MiB; special histories placing Flush at +-1 around the 64 KiB compressed and 2 MiB uncompressed chunk limits and between compressible/incompressible payloads) x Writer2Config (all lc/lp/pb with lc+lp<=4, DictCap 4096..1 MiB, BufSize 273..65536, both matchers). At every successful Flush the sink prefix is decoded by the reference decoder in open mode and by lzma.Reader2; after Close by Reader2, the strict reference and liblzma. distinct non-trivial = distinct (history shape string | dict class | bufsize | matcher | chunk kinds emitted)")
 	c.Assume("sequential reference model: W = concatenation of all bytes accepted by Write so far", "internal/ref and liblzma as LZMA2 decoders")
 	n := 1500
-	nedge := 80
+	nedge, nthin := 80, 100
 	if thorough(c) {
 		n = 12000
 		nedge = 400 // five different noise seeds per offset
@@ -150,6 +157,10 @@ func checkC08(c *ev.Ctx) {
 				matcher = 0
 				cfg.Matcher = lzma.HashTable4
 			}
+		}
+		if thin := i - (nhist - nedge - nthin); thin >= 0 && thin < nthin {
+			special, matcher = 1000+thin, thin%2
+			cfg.Matcher, cfg.DictCap, cfg.BufSize = lzma.MatchAlgorithm(thin%2), []int{1 << 20, 1 << 17, 8 << 20}[thin%3], 4096
 		}
 		if edge := i - (nhist - nedge); edge >= 0 {
 			// the last nedge histories sweep one expensive operation across the end of a chunk
